@@ -92,7 +92,7 @@ def write_replay(pid, case, flags, reason, seed, tier, extra=None) -> str:
     if os.environ.get("VERIF_NO_EVIDENCE"):
         core.REPLAYS = "/tmp/verif_mutant_replays"
     os.makedirs(core.REPLAYS, exist_ok=True)
-    body = {"property": pid, "reason": reason, "seed": seed, "tier": tier, "cid": case.get("cid"),
+    body = {"property": pid, "reason": reason, "seed": case.get("stream_seed", seed), "tier": tier, "cid": case.get("orig_cid", case.get("cid")),
             "stream": case.get("stream"), "flags[A model=impl, B spec=impl, C monitors, S selfcheck]": flags,
             "op": case.get("op"), "input": case.get("input"), "impl": case.get("impl_repr"),
             "meta": case.get("meta"), "coq_term": case.get("term"), "scale": case.get("scale", 1)}
@@ -161,9 +161,24 @@ def main():
     kf = findings.load()
     cases, failing = [], {}
     stream_error = None
+    extra_seeds = []
     if ok:
         try:
             cases, failing = run_stream(mod, ctx)
+            # the thorough tier explores two further seeds of the same stream (replays name the seed they came from)
+            if args.tier == "thorough" and not replay and not os.environ.get("VERIF_SINGLE_SEED"):
+                for k, s_extra in enumerate([seed + 7001, seed + 14002], start=1):
+                    ctxk = Ctx(pid, args.tier, s_extra, None)
+                    ctxk.runner = ctx.runner
+                    cases_k, failing_k = run_stream(mod, ctxk)
+                    off = k * 10_000_000
+                    for c in cases_k:
+                        c["orig_cid"] = c["cid"]
+                        c["cid"] = off + c["cid"]
+                        c["stream_seed"] = s_extra
+                    cases.extend(cases_k)
+                    failing.update({off + cid: fl for cid, fl in failing_k.items()})
+                    extra_seeds.append(s_extra)
         except Exception:  # noqa: BLE001
             stream_error = traceback.format_exc()
     else:
@@ -315,7 +330,7 @@ def main():
             "histograms": hist,
             "failing_cases": len(failing),
             "known_findings_confirmed": sorted(kf_hits),
-            "notes": notes,
+            "notes": notes + ([f"further seeds explored by the thorough tier: {extra_seeds}"] if extra_seeds else []),
             "coq_seconds": round(ctx.runner.coq_seconds, 1),
         },
         "assumptions": getattr(mod, "ASSUMPTIONS", []),
